@@ -137,6 +137,8 @@ def check_c03(prog, rep, tier, cfg):
     layout.rewrite_is_reported(prog, rep, "C03.d")
     # C03.g — the first wrapping pass, the refresh before the second one and the multi-line measure use one unit of width
     layout.width_measures_agree(prog, rep, "C03.g")
+    # C03.i — the reflow starts where the first pass started
+    layout.reflow_root_is_first_pass_root(prog, rep, "C03.i")
     layout.check_c09(prog, AliasReport(rep, [("C09.d", r".", "C03.d")]), tier, cfg)
     # C03.f — measurements memoised by the first wrapping pass do not outlive the text they were taken from (shared with C11.d; 1 known finding)
     layout.check_c11(prog, AliasReport(rep, [("C11.d", r".", "C03.f")]), tier, cfg)
